@@ -94,7 +94,8 @@ def create_scaled_loss(
     example_loss = per_example_loss(params, batch, rng)
     # \sum_{j \in b \cap \h{\sD}_i} \L(w, x_j, y_j)
     domain_sum_loss = jax.ops.segment_sum(example_loss, did, num_domains)
-    loss = jnp.sum(alpha * domain_sum_loss) / beta
+    # beta is 0 for a client whose domains all had no example in the window.
+    loss = util.safe_div(jnp.sum(alpha * domain_sum_loss), beta)
     if regularizer is not None:
       loss += regularizer(params)
     return loss
@@ -255,8 +256,11 @@ def agnostic_federated_averaging(
                               client_datasets.ClientDataset, PRNGKey]]
   ) -> Tuple[ServerState, Mapping[federated_data.ClientId, Any]]:
     # α
-    alpha = server_state.domain_weights / jnp.mean(
-        jnp.asarray(server_state.domain_window), axis=0)
+    # A domain without any example in the window gets scaling weight 0 rather
+    # than inf (which turned every client weight into NaN).
+    alpha = util.safe_div(
+        server_state.domain_weights,
+        jnp.mean(jnp.asarray(server_state.domain_window), axis=0))
     # First pass to calculate initial domain loss, domain num, and scaling
     # weight β for each client. This doesn't involve any aggregation at the
     # server, so this step and training can be a single round of communication.
